@@ -324,7 +324,29 @@ def check_mag(run, ix, lookup):
     run.sample('N-R2', 'mag evaluated symbolically on 10 mpf classes and 100 mpc class pairs')
 
 
+def _rounding_constructor(run, ix, name):
+    """ldexp and frexp are documented as exact ("no rounding is performed").  The constructor ctx.mpf(x) (and unary
+    plus) rounds its argument to the working precision, ctx.convert does not: a call of the constructor on the way is a
+    finding of N-R3, not something to interpret (seed C39-8)."""
+    rel, f = where(ix, name)
+    for c in _walk_own(f.node):
+        if isinstance(c, ast.Call) and norm(c.func) in ('ctx.mpf', 'ctx.mpc') or \
+                (isinstance(c, ast.UnaryOp) and isinstance(c.op, ast.UAdd)):
+            run.rule('N-R3')['sites'] += 1
+            run.obligations += 1
+            run.rule('N-R3')['failed'] += 1
+            run.findings.append(Finding('N-R3', rel, f.qualname, norm(c),
+                                        '%s puts its argument through `%s`, which rounds to the working precision: the '
+                                        'documented "no rounding is performed" is lost for an argument with more bits than '
+                                        'that (frexp(1 - 2**-100) made at 200 bits and taken at 53 returns (0.5, 1); '
+                                        'frexp(2**100 + 1) returns (0.5, 101))' % (name, norm(c, 30)), line=c.lineno))
+            return True
+    return False
+
+
 def check_ldexp_frexp(run, ix, lookup):
+    if _rounding_constructor(run, ix, 'ldexp') or _rounding_constructor(run, ix, 'frexp'):
+        return
     rel, f = where(ix, 'ldexp')
     bad = []
     for r in all_raws():
